@@ -503,4 +503,119 @@ theorem compact_spec (hpage : PageSpec) : CompactSpec compactFuel := by
     push_cast
     rfl
 
+/-! ### `Add` -/
+
+/-- the buffered path of the generated `Add` (it occurs twice in the generated code): compact when the buffer
+    is full and long enough, grow the capacity when the buffer is full, append -/
+def genBuf (fuel : Nat) (grow : Int → Int → Int) (s : GP) (index : Int) : Res GP :=
+  Res.bind (if (((GoSem.len (s).buffer) == (s).bufferCap) && (decide ((s).bufferCompactionTriggerLen ≤ (GoSem.len (s).buffer)))) then
+    Res.bind (BufferedPaginatedStore.compact fuel s) (fun s => .ok s)
+    else .ok s) (fun s =>
+  let s := if ((GoSem.len (s).buffer) == (s).bufferCap) then
+    let s := { s with bufferCap := (grow (s).bufferCap ((GoSem.len (s).buffer) + (1 : Int))) }
+    s
+    else s
+  let s := { s with buffer := ((s).buffer ++ [index]) }
+  .ok s)
+
+/-- the buffered path of the model's `addUnit` -/
+def modelBuf (s : PStore) (i : Int) (b : Bool) : Option PStore := do
+  let s ← if b ∧ s.buffer.length ≥ s.trigger then s.compact else pure s
+  pure { s with buffer := s.buffer ++ [i] }
+
+/-- the append (with the capacity growth of the runtime, whatever it is) -/
+theorem genBuf_tail (grow : Int → Int → Int) (s : PStore) (cap : Int) (i : Int) :
+    ∃ cap' : Int,
+      (let g := if ((GoSem.len (toGen s cap).buffer) == (toGen s cap).bufferCap) then
+          { toGen s cap with bufferCap := (grow (toGen s cap).bufferCap ((GoSem.len (toGen s cap).buffer) + (1 : Int))) }
+        else toGen s cap
+       ({ g with buffer := g.buffer ++ [i] } : GP)) = toGen { s with buffer := s.buffer ++ [i] } cap' := by
+  by_cases h : (GoSem.len (toGen s cap).buffer == (toGen s cap).bufferCap) = true
+  · exact ⟨grow cap ((s.buffer.length : Int) + 1), by simp only [h, if_true]; rfl⟩
+  · exact ⟨cap, by simp only [h]; rfl⟩
+
+theorem genBuf_spec (hpage : PageSpec) (s : PStore) (cap : Int) (grow : Int → Int → Int) (i : Int) (fuel : Nat)
+    (hf : compactFuel s ≤ fuel) :
+    ROk (genBuf fuel grow (toGen s cap) i) (modelBuf s i (decide ((s.buffer.length : Int) = cap))) := by
+  unfold genBuf modelBuf
+  by_cases hc : ((s.buffer.length : Int) = cap) ∧ s.buffer.length ≥ s.trigger
+  · have hg : ((GoSem.len (toGen s cap).buffer == (toGen s cap).bufferCap) &&
+        decide ((toGen s cap).bufferCompactionTriggerLen ≤ GoSem.len (toGen s cap).buffer)) = true := by
+      simp only [toGen_buffer, toGen_bufferCap, toGen_trigger, GoSem.len, Bool.and_eq_true, beq_iff_eq]
+      exact ⟨hc.1, decide_eq_true (by omega)⟩
+    rw [if_pos hg, if_pos (by simpa using hc), compact_spec hpage s cap fuel hf]
+    cases s.compact with
+    | none => rfl
+    | some s' =>
+      obtain ⟨cap', hcap'⟩ := genBuf_tail grow s' cap i
+      exact ⟨_, rfl, cap', hcap'⟩
+  · have hg : ¬ (((GoSem.len (toGen s cap).buffer == (toGen s cap).bufferCap) &&
+        decide ((toGen s cap).bufferCompactionTriggerLen ≤ GoSem.len (toGen s cap).buffer)) = true) := by
+      simp only [toGen_buffer, toGen_bufferCap, toGen_trigger, GoSem.len, Bool.and_eq_true, beq_iff_eq]
+      intro h
+      have := of_decide_eq_true h.2
+      exact hc ⟨h.1, by omega⟩
+    rw [if_neg hg, if_neg (by simpa using hc)]
+    obtain ⟨cap', hcap'⟩ := genBuf_tail grow s cap i
+    exact ⟨_, rfl, cap', hcap'⟩
+
+theorem addUnit_eq (s : PStore) (i : Int) (b : Bool) :
+    s.addUnit i b =
+      match s.slot? (s.pageIndex i) with
+      | some k => if (s.pages.getD k #[]).size > 0 then addAtPage s k (s.lineIndex i) 1 else modelBuf s i b
+      | none => modelBuf s i b := by
+  unfold PStore.addUnit modelBuf
+  cases s.slot? (s.pageIndex i) with
+  | none => rfl
+  | some k =>
+    simp only
+    by_cases hz : (s.pages.getD k #[]).size > 0
+    · simp only [if_pos hz]
+    · simp only [if_neg hz]
+
+/-- fuel for `Add` / `AddWithCount`: what a compaction of the current buffer needs (and `page`, for a count ≠ 1) -/
+def addFuel (s : PStore) (i : Int) : Nat := max (compactFuel s) (pageFuel s (s.pageIndex i))
+
+theorem add_spec (hpage : PageSpec) : AddSpec addFuel := by
+  intro s cap grow i fuel hf
+  have hf1 : compactFuel s ≤ fuel := by unfold addFuel at hf; omega
+  rw [addUnit_eq]
+  unfold BufferedPaginatedStore.Add
+  simp only [gen_pageIndex, gen_lineIndex, toGen_minPageIndex, toGen_pages, len_pagesL]
+  by_cases hin : s.minPageIndex ≤ s.pageIndex i ∧ s.pageIndex i < s.minPageIndex + (s.pages.size : Int)
+  · have hslot : s.slot? (s.pageIndex i) = some (s.pageIndex i - s.minPageIndex).toNat := by
+      rw [PStore.slot?_eq_some]; exact ⟨hin.1, hin.2, rfl⟩
+    rw [hslot]
+    simp only [hin.1, hin.2, decide_true, Bool.and_self, if_true]
+    rw [idx_pagesL s _ (by omega) (by omega)]
+    simp only [optR_some]
+    generalize hk : (s.pageIndex i - s.minPageIndex).toNat = k
+    have hkI : s.pageIndex i - s.minPageIndex = (k : Int) := by omega
+    have hks : k < s.pages.size := by omega
+    by_cases hz : (s.pages.getD k #[]).size > 0
+    · have h0 : (0 : Int) < GoSem.len (s.pages.getD k #[]).toList := by
+        simp only [GoSem.len, Array.length_toList]; omega
+      simp only [h0, decide_true, if_true, if_pos hz]
+      rw [addAt_toList]
+      unfold PStore.addAtPage DStore.addAt
+      by_cases hl : s.lineIndex i < (s.pages.getD k #[]).size
+      · rw [if_pos (by omega), if_pos ⟨hks, hl⟩]
+        simp only [Option.map_some, optR_some, hkI, Int.toNat_natCast]
+        rw [set_pagesL s k _ (by omega) (by omega)]
+        exact ⟨_, rfl, cap, rfl⟩
+      · rw [if_neg (by omega), if_neg (fun h => hl h.2)]
+        rfl
+    · have h0 : ¬ ((0 : Int) < GoSem.len (s.pages.getD k #[]).toList) := by
+        simp only [GoSem.len, Array.length_toList]; omega
+      simp only [h0, decide_false, Bool.false_eq_true, if_false, if_neg hz]
+      exact genBuf_spec hpage s cap grow i fuel hf1
+  · have hslot : s.slot? (s.pageIndex i) = none := by
+      rw [PStore.slot?_eq_none]; exact hin
+    rw [hslot]
+    have hc : ((decide (s.minPageIndex ≤ s.pageIndex i)) &&
+        (decide (s.pageIndex i < s.minPageIndex + (s.pages.size : Int)))) = false := by
+      rw [Bool.and_eq_false_iff]; simp only [decide_eq_false_iff_not]; omega
+    simp only [hc, Bool.false_eq_true, if_false]
+    exact genBuf_spec hpage s cap grow i fuel hf1
+
 end DDS.GenPag
